@@ -38,7 +38,7 @@ var cfgC02 = reg(PropCfg{
 
 var cfgC03 = reg(PropCfg{
 	ID: "C03",
-	Profile: &Profile{Weights: entWeights(), MinBlocks: 5, MaxBlocks: 35, MaxTxs: 4, MaxOps: 2, PUpper: 15, PActor: 8, PNamed: 1, PFault: 2, PExec: 6,
+	Profile: &Profile{Weights: entWeights(), PBulk: 12, MinBlocks: 5, MaxBlocks: 35, MaxTxs: 4, MaxOps: 2, PUpper: 15, PActor: 8, PNamed: 1, PFault: 2, PExec: 6,
 		PGovParams: 8, PBadRef: 4, ValidParams: true},
 	Rule: "history in which >=1 order reaches completed and >=1 reaches rejected, or parameters change while an order is raised/accepted",
 	NonTrivial: func(w *World) bool {
@@ -76,7 +76,7 @@ func regWeights() map[string]int {
 }
 
 func regProfile() *Profile {
-	return &Profile{Weights: regWeights(), PSameKind: 30, MultiPct: 15, MinBlocks: 6, MaxBlocks: 30, MaxTxs: 5, MaxOps: 3, PUpper: 8, PActor: 10, PNamed: 2, PFault: 2, PExec: 10,
+	return &Profile{Weights: regWeights(), PSameKind: 30, MultiPct: 15, PBulk: 8, MinBlocks: 6, MaxBlocks: 30, MaxTxs: 5, MaxOps: 3, PUpper: 8, PActor: 10, PNamed: 2, PFault: 2, PExec: 10,
 		PGovParams: 7, PBadRef: 5, TinyLimits: true, ValidParams: true, GovKinds: []string{ParamsWrk, ParamsBcn}}
 }
 
@@ -218,7 +218,7 @@ func TestC16(t *testing.T) { RunProperty(t, cfgC16) }
 var cfgC20 = reg(PropCfg{
 	ID: "C20",
 	Profile: &Profile{Weights: map[string]int{EntRaise: 14, EntDecide: 20, EntWL: 8, WrkReg: 12, WrkRec: 6, BcnReg: 12, BcnRec: 6, StrCreate: 16, StrClaim: 4, StrCancel: 3, BankSend: 2},
-		MinBlocks: 6, MaxBlocks: 25, MaxTxs: 6, MaxOps: 2, PUpper: 10, PActor: 3, PNamed: 1, PFault: 1, PExec: 3, PGovParams: 3, PBadRef: 2, ValidParams: true, TinyLimits: true},
+		MinBlocks: 6, MaxBlocks: 25, MaxTxs: 6, MaxOps: 2, PUpper: 10, PActor: 3, PNamed: 1, PFault: 1, PExec: 3, PGovParams: 3, PBadRef: 2, ValidParams: true, TinyLimits: true, PBulk: 10},
 	Rule: "history reaching a committed state in which a filter matches a strict, non-empty subset of a collection and a list query needs >= 2 pages",
 	NonTrivial: func(w *World) bool { return w.Classes["c20.filter-strict-subset"] > 0 && w.Classes["c20.multi-page"] > 0 },
 	MinClasses: map[string]int{"c20.filter-strict-subset": 100, "c20.multi-page": 500},
